@@ -47,11 +47,14 @@ def run(m, chk):
         "commit is last; the committed points depend on points, nodes, knot vector and weights (rational bases included, ARG-FLOW at the fitfunc call); fit_function samples the function at exactly the nodes it passes on. "
         "The normal equations, interpolation and reproduction are not decided."
     )
-    chk.decides = ["POLY-ONLY (LeastSquare.fit_function builds its collocation matrix from the polynomial basis only where weights is None)", "NO-REORDER (nodes and points keep the caller's order)", "END-EXACT (closed reference nodes are mapped onto a span with an expression that is exact at both ends)", "SEARCH-ALL (the pivot search and every other conditional loop of the solver can go on to the next candidate)", "MEMO-KEY (no function on the path is memoised by the value of numbers / knot vectors)", "GATE-COUNT", "COMMIT-LAST", "DEP-MAY", "ARG-FLOW", "SAME-NODES", "PURE", "ONE-NODE-FAMILY (the default nodes of fit_points do not depend on the number type)", "PRECOND-LB (len(points) = 1 does not trip the node generator's assertion)"]
+    chk.decides = ["LSTSQ-ROWS (the normal equations of Linalg.lstsq are formed from the caller's matrix through conversions only: no equation is rescaled, every residual has weight 1)", "POLY-ONLY (LeastSquare.fit_function builds its collocation matrix from the polynomial basis only where weights is None)", "NO-REORDER (nodes and points keep the caller's order)", "END-EXACT (closed reference nodes are mapped onto a span with an expression that is exact at both ends)", "SEARCH-ALL (the pivot search and every other conditional loop of the solver can go on to the next candidate)", "MEMO-KEY (no function on the path is memoised by the value of numbers / knot vectors)", "GATE-COUNT", "COMMIT-LAST", "DEP-MAY", "ARG-FLOW", "SAME-NODES", "PURE", "ONE-NODE-FAMILY (the default nodes of fit_points do not depend on the number type)", "PRECOND-LB (len(points) = 1 does not trip the node generator's assertion)"]
     chk.not_decided = ["residual orthogonal to the collocation columns", "interpolation when len(points) = npts", "reproduction of curves of the same space"]
     count_gate(r, chk, FP, "points", lambda ctx: [ctx.cfg.nodes[w] for w in r.write_nodes(ctx, 0)])
     count_gate(r, chk, HF, "nodes", lambda ctx: [n for n in r.stmt_nodes(ctx) if isinstance(n.ast, ast.Return)])
     r.commit_last("COMMIT-LAST", FP)
+    from .extra import lstsq_rows
+
+    lstsq_rows(r, chk)
     from .extra import one_node_family, precond_lb
 
     one_node_family(r, chk, FP)
